@@ -13,17 +13,21 @@ run():
   4. search oracle: the observation log recorded on the real code is judged by the Spec monitors (driver op
      `comp.judge`); every rejected observation is a Violation keyed by clause + cause class.
 
-Self-test (mutations applied to a scratch copy, `VERIF_REPO=/tmp/c14mut ./check C14 --tier quick`); recorded
-2026-09-23, see the final report of the builder for the table:
-  M1 can_reconnect `<` -> `<=`                              -> exit 1, budget:exceeded (+ correspondence)
-  M2 on_join without transport.reset()                      -> exit 1, giveup:eligible-transport-left
-  M3 handle_connect_error never calls failed()              -> exit 1, fatal:attempt-after-fatal
-  M4 next_delay without the max_retry_delay clamp           -> exit 1, delay:above-max
-  M5 session_done rejects _done_f                           -> exit 1, polarity:success-expected
-  M6 next_delay returns initial_retry_delay on first use    -> exit 1, first:delayed-first-attempt
-  M7 ObservableMixin.fire skips the parent for 'ready'      -> exit 1, bubble:missing-call
-  M8 stop() resolves _done_f without the is_called guard    -> exit 1 (correspondence: done differs)
-  H1 harmless rewrite (can_reconnect with `not >=`, for-loop instead of any) -> exit 0
+Self-test, 2026-09-23 (single edits in a scratch copy, `VERIF_REPO=/tmp/c14mut ./check C14 --tier quick`; every
+exit 1 came with a concrete replay case; correspondence also broke (5 of 5 recorded) in every M row):
+  M1  can_reconnect `<` -> `<=`                          exit 1  progress:idle-without-done (next_delay raises, loop dies)
+  M2  on_join without transport.reset()                  exit 1  giveup:eligible-transport-left, round-robin:wrong-order
+  M3  fatal error does not call transport.failed()       exit 1  fatal:attempt-after-fatal, round-robin:wrong-order
+  M4  next_delay without the max_retry_delay clamp       exit 1  delay:above-max
+  M5  session_done rejects _done_f                       exit 1  giveup:eligible-transport-left (error while eligible)
+  M6  first attempt waits initial_retry_delay            exit 1  first:delayed-first-attempt
+  M7  ObservableMixin.fire skips the parent for 'ready'  exit 1  bubble:missing-or-extra-call
+  M8  error(): stop during a delay rejects _done_f       exit 1  giveup:eligible-transport-left
+  M9  always the first eligible transport (no cycle)     exit 1  round-robin:wrong-order
+  M10 connect_attempts += 2                              exit 1  giveup:eligible-transport-left, round-robin:wrong-order
+  M11 on_leave resolves on transport loss                exit 1  polarity:success-without-cause
+  H1  can_reconnect as `not >=`, _can_reconnect as any() exit 0
+  H2  clamp written with min()                           exit 0
 """
 import json
 import os
@@ -176,7 +180,7 @@ def gen_script(rng, main, classifier, k, p_stop_inside=0.0):
     for _ in range(k):
         o = rng.choice(outs)
         f = 1 if (classifier == "script" and rng.random() < 0.3) else 0
-        evs.append(["out", o, f])
+        evs.append(["out", o, f] + (["early"] if o == "hsfail" and rng.random() < 0.4 else []))
         if o == "joined":
             f2 = 1 if (classifier == "script" and rng.random() < 0.3) else 0
             evs.append(["sess", rng.choice(["lost", "lost", "leave", "goodbye"]), f2])
